@@ -3,15 +3,20 @@ from props import TB_COMMON
 
 ENTRY = dict(
     level="proof",
-    level_text=("Lean 4 theorems over a generic XML codec (marshal / parse over Node and Xml trees of unbounded size) "
-                "parametric in a schema table that is regenerated from the Go struct tags and method bodies on every "
-                "run: round trip by mutual structural induction under a well-formedness checker that the kernel "
-                "evaluates on the extracted table, purity of marshal, completeness of the generated FindBy traversal "
-                "lists; a proved dichotomy on the extracted fact `xsiDeclared` (currently false: a formal expression "
-                "comes back informal, concrete witness on the extracted table); tied to the code by a three-way tree "
-                "differential (model, tokenised xml.Marshal output, re-parsed model) on every bundled .bpmn file, "
-                "hand-made definitions over every flow-node kind and random definitions over every struct of the "
-                "schema package, and by evaluating the C15 predicate on the implementation's own data"),
+    level_text=("Lean 4 theorems over a generic XML codec (marshal / parse over Node and Xml trees of unbounded size and "
+                "depth) parametric in a schema table that is regenerated from the Go struct tags and method bodies on "
+                "every run. Proved for EVERY table that passes a decidable check (rtTableB) and every well-typed "
+                "definitions tree, by mutual structural induction over the tree: parse (marshal n) = n up to trimming "
+                "of the text PreMarshal trims and the olive Item defaults (roundtrip_general; the result has the same "
+                "shape, and is n itself when nothing is trimmed and no default applies); marshal stores back only "
+                "trimmed text and is idempotent; the generated FindBy traversal lists cover every place an id-carrying "
+                "element can be. The check is evaluated by the kernel on the table extracted from the current tree "
+                "(current_rt_table, current_roundtrip, current_C15); a table that fails it has concrete kernel-checked "
+                "witnesses (undeclared xsi prefix: a formal expression comes back informal; value-typed AnExpression "
+                "field under a pointer-receiver marshaler: expression lost), both repaired in /repo. Tied to the code "
+                "by a three-way tree differential (model, tokenised xml.Marshal output, re-parsed model) on every "
+                "bundled .bpmn file, hand-made definitions over every flow-node kind and random definitions over every "
+                "struct of the schema package, and by evaluating the C15 predicate on the implementation's own data"),
     level_note=("trusted: Lean kernel, the extractor's reading of tags / MarshalXML / FindBy bodies, the reflection "
                 "walker and tokeniser of the harness; modelled, validated by the differential only: encoding/xml "
                 "(field flattening and shadowing, escaping, namespace resolution), strconv formatting of attribute values"),
